@@ -277,3 +277,29 @@ def _within():
 
 s, c, p = _within()
 register(Obligation("verif.metric.Within.compute_from_obs_fcst#POST:definition", ("C05", "C07"), s, c, p, modules=MOD))
+
+
+# ------------------------------------------------------------------ C14: shift invariance (anomaly scores)
+def _shift_invariant(cls_name):
+    cls = getattr(verif.metric, cls_name)
+
+    def setup(G):
+        return Bag(obs=G.array("obs", ("n",), kinds=(FIN,), min_size=1), fcst=G.array("fcst", ("n",), kinds=(FIN,), min_size=1),
+                   clim=G.array("clim", ("n",), kinds=(FIN,), min_size=1), agg=DualAgg())
+
+    def call(inp):
+        m = cls()
+        if cls.supports_aggregator:
+            m.aggregator = inp.agg
+        return m._compute_from_obs_fcst(inp.obs, inp.fcst), m._compute_from_obs_fcst(inp.obs - inp.clim, inp.fcst - inp.clim)
+
+    def post(S, inp, out):
+        raw, anomaly = out
+        return [("score-of-anomalies-equals-score-of-raw-values(on-the-same-valid-cases)", S.same(raw, anomaly))]
+    return setup, call, post
+
+
+for _c in ("Mae", "Bias", "Rmse", "StdError"):
+    s, c, p = _shift_invariant(_c)
+    register(Obligation("verif.metric.%s._compute_from_obs_fcst#LEMMA:invariant-under-subtracting-a-climatology" % _c, ("C14",), s, c, p, modules=MOD,
+                        functions=["verif.metric.%s._compute_from_obs_fcst" % _c]))
